@@ -30,6 +30,14 @@ CHECKS = {
    text="resolve_timestamp on every day 1970-01-01..2199-12-31 at the first/last second (thorough: every hour) x 16 patterns and every second of 12 boundary days, the 11 CalVer presets through the real in-process pipeline on month boundaries (thorough: every day), every pattern by name in a custom schema in each section, and the bumped/last timestamp precedence table, all judged by an independent days-from-civil calendar. The harness process runs under TZ=JST-9 and a binary slice under three TZ values, so local-time dependence is observable.",
    note="Trusts R-CAL (self-tested on fixed instants). Fixed-width forms only observable at resolve_timestamp.",
    technique="exhaustive enumeration of instants x patterns x presets against a reference calendar", ref="C17"),
+ "C07": dict(cat="model_checking",
+   text="Full product of canonical SemVer shapes (core numbers incl. 2^32-1 x epoch x label/number x post x dev x build) rendered semver->semver, semver->pep440, pep440->semver, pep440->pep440 through the real `zerv render` entry point and compared with an independent formatter; out-of-range numerals (2^32, 2^64-1, 2^64, 23 digits) in every numeric position must be rejected or rendered exactly; a product of PEP 440 spellings for round-trip equality (judged by R-PEP's key) and fixed points; every SemVer whose pre-release is a token sequence of length <=4/5 over labels and numbers for the fixed-point / no-panic clause.",
+   note="Round-trip equality is version equality under R-PEP; numbers explored at 0/1/small and at the u32/u64 boundaries.",
+   technique="exhaustive product / token-sequence enumeration through the real render pipeline against independent formatters", ref="C07"),
+ "C06": dict(cat="model_checking",
+   text="Valid schemas are generated as programs (all sequences up to a length over a component alphabet covering every component kind, with the placement rules respected) in the three sections, crossed with 6 variable assignments and both formats; SemVer::from(Zerv)/PEP440::from(Zerv) are compared by full string equality with R-REN, a transcription of the documented placement rules; the smart presets' tier table is checked at schema_with_zerv and through the CLI; a slice is bound to `zerv version --source stdin` in-process and through the real binary.",
+   note="Trusts R-REN, R-SAN, R-CAL; component alphabet and lengths as stated; wall clock pinned by the LD_PRELOAD seam.",
+   technique="exhaustive enumeration of schema programs x variable assignments against a reference renderer", ref="C06"),
 }
 
 def main():
